@@ -218,8 +218,13 @@ func (c *Collection) chunks() int {
 		return 0
 	}
 
+	// Only blocks which have been committed to can be read; a block reached solely by
+	// an in-flight insert (or by a rolled back one) has no state yet
 	max, _ := c.fill.Max()
-	return int(commit.ChunkAt(max) + 1)
+	if chunks := int(commit.ChunkAt(max) + 1); chunks < len(c.commits) {
+		return chunks
+	}
+	return len(c.commits)
 }
 
 // readChunk acquires appropriate locks for a chunk and executes a read callback.
